@@ -148,7 +148,7 @@ func c01Property(t *rapid.T) {
 	defer w.N.Destroy()
 	g := newHistGen(t, w)
 	// favour the map-heavy paths
-	g.weights = append(g.weights, "group", "group", "group", "group", "ibtp-req", "ibtp-rcpt", "gov-vote", "gov-lifecycle", "gov-register-service")
+	g.weights = append(g.weights, "group", "group", "group", "group", "ibtp-req", "ibtp-rcpt", "gov-vote", "gov-lifecycle", "gov-register-service", "eth", "eth")
 	var ops []string
 	f := &failer{t: t, prop: "C01", ops: &ops}
 	ops = append(ops, fmt.Sprintf("world std audit=%v", audit))
